@@ -1291,9 +1291,13 @@ def run(ck):
         for p in b["overlap"]:
             k = "%s/%s" % tuple(sorted((p[3], p[4])))
             if p[2] != 0 and k not in known_pairs:
+                fx = {e["row"]["idx"]: c02_rows.row_fixed(e) for e in b["sup"] if e["row"]["idx"] in (p[0], p[1])}
+                wit = fx[p[0]][0] | fx[p[1]][0]        # a word carrying the fixed bits of both rows (all fields zero)
                 ck.violation("C02/unrecorded-row-overlap/" + k, "database rows `%s` and `%s` (different mnemonics) admit the same words: no fixed bit separates them and the "
-                             "pair is not a reviewed alias of corpus/C02/overlap_mnemonic_pairs.txt" % (inst_of[p[0]], inst_of[p[1]]),
-                             {"db_rows": [inst_of[p[0]], inst_of[p[1]]], "broken": "db/isa_aarch64.json or the alias list"}, no_input=True)
+                             "pair is not a reviewed alias of corpus/C02/overlap_mnemonic_pairs.txt; witness word %08X matches the fixed bits of both "
+                             "(`echo 0x%02x 0x%02x 0x%02x 0x%02x | llvm-mc --disassemble -triple=aarch64` names the architectural instruction)" % (
+                                 inst_of[p[0]], inst_of[p[1]], wit, wit & 255, (wit >> 8) & 255, (wit >> 16) & 255, wit >> 24),
+                             {"db_rows": [inst_of[p[0]], inst_of[p[1]]], "witness_word": "%08X" % wit, "broken": "db/isa_aarch64.json or the alias list"}, no_input=True)
     for o in ck.proof_failures():
         ck.violation("C02/proof/" + o["name"], "theorem %s no longer checks (%s)" % (o["name"], getattr(ck, "coq_log", "")[-800:]),
                      {"broken": "theorem " + o["name"], "file": "coq/theories/Properties/Properties_C02*.v"}, no_input=True)
@@ -1333,6 +1337,9 @@ def run(ck):
         "encoding_tables": {"table_words_dumped": tb["dumped"], "entries_compared_with_db_rows": tb["entries"], "instructions_covered": tb["instructions_covered"], "literal_opcode_entries": tb["literal_entries"],
                             "instructions_total": 774, "classes_not_covered": tb["classes_not_covered"],
                             "without_supported_rows": tb["without_supported_rows"]},
+        "completeness": {"rows_with_simple_template (C02_tmpl_complete_simple)": int(re.search(r"simple_rows_count : Z := (\d+)", b["coq"]).group(1)),
+                         "rows_with_image_characterised (C02_image_characterised)": int(re.search(r"bij_rows_count : Z := (\d+)", b["coq"]).group(1)),
+                         "rows_total": len(b["sup"])},
         "rows_disjoint": {"row_pairs": len(b["sup"]) * (len(b["sup"]) - 1) // 2, "pairs_not_separated_by_fixed_bits": len(b["overlap"]),
                           "same_mnemonic": len([p for p in b["overlap"] if p[2] == 0]), "db_aliasOf": len([p for p in b["overlap"] if p[2] == 1]),
                           "other_mnemonic_pairs": sorted({"%s/%s" % tuple(sorted((p[3], p[4]))) for p in b["overlap"] if p[2] == 2})},
